@@ -150,7 +150,7 @@ const (
 
 func hasTok(r *rig.Resp) bool { return r.Status == 200 && r.Str("access_token") != "" }
 func is200(r *rig.Resp) bool  { return r.Status == 200 }
-func is302(r *rig.Resp) bool  { return r.Status == 302 && r.Header.Get("Location") != "" }
+func is302(r *rig.Resp) bool  { return r.Status >= 300 && r.Status < 400 && r.Header.Get("Location") != "" } // any redirect status: the statement does not fix 302 vs 303/307
 func jsonHas(k string) func(*rig.Resp) bool {
 	return func(r *rig.Resp) bool { _, ok := r.JSON()[k]; return r.Status == 200 && ok }
 }
